@@ -380,3 +380,19 @@ Proof.
   eexists. split; [do 5 right; left; reflexivity|]. split; [reflexivity|]. split; [|split; reflexivity].
   apply Permutation_sym, Permutation_rev.
 Qed.
+
+(* the routes that have no field-level model (Datadog logs/metrics, Cloudflare, Elastic doc/bulk, OTLP logs, and in
+   fact every route of the table): predicted from the regenerated route table -- Content-Encoding, Content-Type
+   dispatch, verdict of the decoder, success status of the route.  Malformed (unsupported/undecodable encoding, no
+   parser for the Content-Type, body rejected) => 4xx/5xx; otherwise 2xx; never a crash or a hang. *)
+Theorem table_routes_answer : forall q, is_some (find_route gen_routes (g_handler q)) = true ->
+  (g_malformed gen_routes q = true -> expect_is_error (g_predict gen_routes q) = true) /\
+  (g_malformed gen_routes q = false -> g_predict gen_routes q = Exact C2xx) /\
+  g_predict gen_routes q <> Exact Crash /\ g_predict gen_routes q <> Exact Hang.
+Proof. intros q. apply g_predict_char. vm_compute. reflexivity. Qed.
+Print Assumptions table_routes_answer.
+
+Example table_routes_hyp_met :
+  let q := {| g_handler := "PushDatadogV2"; g_ce := ""; g_gz_ok := false; g_ct := "text/plain"; g_wire_ok := true |} in
+  is_some (find_route gen_routes (g_handler q)) = true /\ g_malformed gen_routes q = true /\ g_predict gen_routes q = Exact C4xx.
+Proof. vm_compute. split; [|split]; reflexivity. Qed.
